@@ -8,6 +8,15 @@ import RV.Gen.C19Globals
   library by the LD_PRELOAD shim), for EVERY interleaving: `Exec tr s` is "tr is any list
   of events accepted from the initial state, ending in s".
 
+  The server may be started at any point of the integrator's execution (`xStart`).  Every
+  statement below holds for all executions with `racy = false`, i.e. in which the server was
+  NOT started inside an iteration of the loop that had read `r->server_data == NULL` at
+  rebound.c:842 and therefore runs its step without the mutex: started before `integrate()`,
+  while paused in `reb_check_exit`, between iterations, in the prologue/epilogue
+  (`c19_start_outside_iteration_is_safe`).  For a server started inside such an iteration the
+  code as it is gives NO mutual exclusion for that iteration and unlocks a mutex it does not own
+  at rebound.c:868-872 (`c19_start_mid_step_breaks_exclusion`, finding F19).
+
   The protocol as coded does not give the full property: `reb_check_exit`
   (rebound.c:822, last-step paths 690-705), the prologue (795-818) and the epilogue (880-884)
   of `reb_simulation_integrate` write `r` WITHOUT holding `server_data->mutex`.  The model
@@ -24,38 +33,63 @@ open RV.Gen.C19
 
 /-- the mutex has the owner the program counters say, in every reachable state of every
 interleaving; in particular integrator and server are never both inside their critical sections -/
-theorem c19_mutual_exclusion (tr : List Ev) (s : State) (h : Exec tr s) :
-    (s.owner = some .I ↔ critI s.ipc = true) ∧ (s.owner = some .S ↔ critS s.spc = true) ∧
-    ¬ (critI s.ipc = true ∧ critS s.spc = true) := by
-  have i := exec_inv h
-  refine ⟨i.ownI, i.ownS, ?_⟩
+theorem c19_mutual_exclusion (tr : List Ev) (s : State) (h : Exec tr s) (hq : s.racy = false) :
+    (s.owner = some .I ↔ (critI s.ipc = true ∧ s.ilock = true)) ∧ (s.owner = some .S ↔ critS s.spc = true) ∧
+    ¬ ((critI s.ipc = true ∧ s.ilock = true) ∧ critS s.spc = true) ∧ s.ub = false := by
+  have i := exec_inv h hq
+  refine ⟨i.ownI, i.ownS, ?_, i.noUB⟩
   rintro ⟨a, b⟩
   have := i.ownI.mpr a
   have := i.ownS.mpr b
   simp_all
 
-/-- `reb_simulation_step` only ever runs while the integrator owns the mutex -/
-theorem c19_step_only_under_lock (tr : List Ev) (s : State) (h : Exec tr s)
-    (hm : s.sim.phase = .inStep) : s.owner = some .I := by
-  have i := exec_inv h
-  have := i.stepP.mp hm
-  exact i.ownI.mpr (by simp [this, critI])
+/-- once the server exists, `reb_simulation_step` only ever runs while the integrator owns the mutex -/
+theorem c19_step_only_under_lock (tr : List Ev) (s : State) (h : Exec tr s) (hq : s.racy = false)
+    (hu : s.srvUp = true) (hm : s.sim.phase = .inStep) : s.owner = some .I := by
+  have i := exec_inv h hq
+  have hp := i.stepP.mp hm
+  have hc : critI s.ipc = true := by simp [hp, critI]
+  have hl : s.ilock = true := by
+    cases hl : s.ilock with
+    | true => rfl
+    | false => have := i.upC hc hl; simp_all
+  exact i.ownI.mpr ⟨hc, hl⟩
+
+/-- the server thread does not touch anything before it exists -/
+theorem c19_server_idle_until_started (tr : List Ev) (s : State) (h : Exec tr s) (hq : s.racy = false)
+    (hu : s.srvUp = false) : s.spc = .accepting ∧ s.owner = none ∧ s.needCopy = false := by
+  have i := exec_inv h hq
+  have ha := i.downS hu
+  refine ⟨ha, ?_, ?_⟩
+  · cases ho : s.owner with
+    | none => rfl
+    | some t =>
+      cases t with
+      | I => have := (i.ownI.mp ho).2; have := i.lockUp this; simp_all
+      | S => have := i.ownS.mp ho; simp [ha, critS] at this
+  · cases hn : s.needCopy with
+    | false => rfl
+    | true => have := i.nc.mp hn; simp [ha, ncHigh] at this
 
 /-! ### what the server can see -/
 
 /-- while the server is inside `reb_simulation_save_to_stream` the simulation is never `mid n`,
 the number of completed steps is the one read when the serialisation began, and the only
 non-boundary states it can coexist with are the three unlocked writes of the integrator -/
-theorem c19_serialise_never_mid_step (tr : List Ev) (s : State) (h : Exec tr s)
+theorem c19_serialise_never_mid_step (tr : List Ev) (s : State) (h : Exec tr s) (hq : s.racy = false)
     (hs : s.spc = .serialising) :
     s.sim.phase ≠ .inStep ∧
     (∃ m, s.snap = some m ∧ m.steps = s.sim.steps ∧ m.phase ≠ .inStep) ∧
     (s.sim.phase = .atBoundary ∨ (s.sim.phase = .inAdjust ∧ adjPc s.ipc = true)) := by
-  have i := exec_inv h
+  have i := exec_inv h hq
   have hS : s.owner = some .S := i.ownS.mpr (by simp [hs, critS])
+  have hu : s.srvUp = true := by
+    cases hu : s.srvUp with
+    | true => rfl
+    | false => have := i.downS hu; simp_all
   have h1 : s.sim.phase ≠ .inStep := by
     intro hm
-    have := c19_step_only_under_lock tr s h hm
+    have := c19_step_only_under_lock tr s h hq hu hm
     simp_all
   refine ⟨h1, i.snapS hs, ?_⟩
   cases hp : s.sim.phase with
@@ -72,24 +106,34 @@ under the hypothesis "not F18": the integrator is not inside prologue / last-ste
 it lasts (`hna`).  Then for the whole duration the simulation is at a step boundary and is
 exactly the state that was read at the beginning. -/
 theorem c19_serialise_at_boundary_partial (pre post : List Ev) (s0 s : State)
-    (h0 : Exec pre s0) (hh : s0.spc = .holding) (hq : adjPc s0.ipc = false)
-    (hr : run s0 (.sSerBegin :: post) = some s)
+    (h0 : Exec pre s0) (hh : s0.spc = .holding) (hqa : adjPc s0.ipc = false)
+    (hr : run s0 (.sSerBegin :: post) = some s) (hq : s.racy = false)
     (hna : ∀ e ∈ post, e.isAdjust = false) (hne : ∀ e ∈ post, e ≠ .sSerEnd) :
     s.spc = .serialising ∧ s.sim.phase = .atBoundary ∧ s.snap = some s.sim := by
-  have i0 := exec_inv h0
+  have hq0 : s0.racy = false := run_racy_mono hr hq
+  have i0 := exec_inv h0 hq0
   simp only [run, step, hh, if_true] at hr
   have i1 : Inv { s0 with spc := .serialising, snap := some s0.sim } :=
-    step_inv (e := .sSerBegin) i0 (by simp [step, hh])
-  have q1 : Quiet { s0 with spc := .serialising, snap := some s0.sim } := ⟨rfl, hq, rfl⟩
-  have q := run_quiet i1 q1 hr hna hne
-  have i := run_inv i1 hr
+    step_inv (e := .sSerBegin) i0 (by simp [step, hh]) (by simpa using hq0)
+  have q1 : Quiet { s0 with spc := .serialising, snap := some s0.sim } := ⟨rfl, hqa, rfl⟩
+  have q := run_quiet i1 q1 hr hq hna hne
+  have i := run_inv i1 hr hq
   refine ⟨q.ser, ?_, q.same⟩
   have hS : s.owner = some .S := i.ownS.mpr (by simp [q.ser, critS])
   cases hp : s.sim.phase with
   | atBoundary => rfl
   | inStep =>
-    have := i.stepP.mp hp
-    have := i.ownI.mpr (by simp [this, critI])
+    have hst := i.stepP.mp hp
+    have hc : critI s.ipc = true := by simp [hst, critI]
+    have hu : s.srvUp = true := by
+      cases hu : s.srvUp with
+      | true => rfl
+      | false => have := i.downS hu; have := q.ser; simp_all
+    have hl : s.ilock = true := by
+      cases hl : s.ilock with
+      | true => rfl
+      | false => have := i.upC hc hl; simp_all
+    have := i.ownI.mpr ⟨hc, hl⟩
     simp_all
   | inAdjust =>
     have := i.adjP.mp hp
@@ -99,21 +143,21 @@ theorem c19_serialise_at_boundary_partial (pre post : List Ev) (s0 s : State)
 /-- one step is taken while a request arrives; the server gets the mutex at the integrator's
 unlock and serialises while `reb_check_exit` of the next iteration synchronises and shrinks `dt` -/
 def witnessF18 : List Ev :=
-  [.iEnter, .iChkBegin, .iChkEnd true, .iSeeNC0, .iLock, .iStepBegin, .sReq, .sSetNC,
+  [.xStart, .iEnter, .iChkBegin, .iChkEnd true, .iSeeSrv true, .iSeeNC0, .iLock, .iStepBegin, .sReq, .sSetNC,
    .iStepEnd, .iUnlock, .sLock, .iChkBegin, .sSerBegin, .iChkSync]
 
 /-- the hypothesis of the partial theorem cannot be dropped (finding F18): an execution of
 the protocol as coded in which the server is inside `reb_simulation_save_to_stream` while
 the integrator is inside the last-step path of `reb_check_exit`, writing `r` -/
 theorem c19_unlocked_write_overlaps_serialise :
-    ∃ tr s, Exec tr s ∧ s.spc = .serialising ∧ s.sim.phase = .inAdjust ∧ s.ipc = .chkAdj := by
-  have h : (run init witnessF18).map (fun s => (s.spc, s.sim.phase, s.ipc))
-      = some (.serialising, .inAdjust, .chkAdj) := by decide
+    ∃ tr s, Exec tr s ∧ s.racy = false ∧ s.spc = .serialising ∧ s.sim.phase = .inAdjust ∧ s.ipc = .chkAdj := by
+  have h : (run init witnessF18).map (fun s => (s.racy, s.spc, s.sim.phase, s.ipc))
+      = some (false, .serialising, .inAdjust, .chkAdj) := by decide
   cases hr : run init witnessF18 with
   | none => simp [hr] at h
   | some s =>
     simp only [hr, Option.map_some, Option.some.injEq, Prod.mk.injEq] at h
-    exact ⟨witnessF18, s, hr, h.1, h.2.1, h.2.2⟩
+    exact ⟨witnessF18, s, hr, h.1, h.2.1, h.2.2.1, h.2.2.2⟩
 
 /-! ### serving never alters what the integrator does -/
 
@@ -126,12 +170,15 @@ theorem c19_integrator_unaffected (tr : List Ev) (s : State) (h : Exec tr s) :
 
 /-- the server can always finish a request it has started and the integrator can always
 continue once the server is back in `accept`: no reachable state is a deadlock -/
-theorem c19_no_deadlock (tr : List Ev) (s : State) (h : Exec tr s) :
+theorem c19_no_deadlock (tr : List Ev) (s : State) (h : Exec tr s) (hq : s.racy = false) :
     ∃ e, (step s e).isSome = true := by
-  have i := exec_inv h
-  obtain ⟨ipc, spc, owner, nc, sim, snap, served⟩ := s
-  obtain ⟨h1, h2, h3, h4, h5, h6⟩ := i
-  simp only at h1 h2 h3 h4 h5 h6
+  have i := exec_inv h hq
+  obtain ⟨ipc, spc, owner, nc, sim, snap, served, up, il, rc, ub⟩ := s
+  obtain ⟨h1, h2, h3, h4, h5, h6, h7, h8, h9, h10, h11, h12⟩ := i
+  simp only at h1 h2 h3 h4 h5 h6 h7 h8 h9 h10 h11 h12
+  cases up
+  case false => exact ⟨.xStart, by simp [step]⟩
+  case true =>
   cases spc
   case accepting => exact ⟨.sReq, by simp [step]⟩
   case gotReq => exact ⟨.sSetNC, by simp [step]⟩
@@ -143,16 +190,73 @@ theorem c19_no_deadlock (tr : List Ev) (s : State) (h : Exec tr s) :
       cases t with
       | S => simp [critS] at h2
       | I =>
-        have hc := h1.mp rfl
+        obtain ⟨hc, hl⟩ := h1.mp rfl
         cases ipc <;> simp [critI] at hc
         · exact ⟨.iStepBegin, by simp [step]⟩
         · exact ⟨.iStepEnd, by simp [step]⟩
-        · exact ⟨.iUnlock, by simp [step]⟩
+        · exact ⟨.iUnlock, by simp [step, hl]⟩
   case holding => exact ⟨.sSerBegin, by simp [step]⟩
   case serialising => exact ⟨.sSerEnd, by simp [step]⟩
   case serialised => exact ⟨.sClrNC, by simp [step]⟩
   case ncClr => exact ⟨.sUnlock, by simp [step, h2, critS]⟩
   case sending => exact ⟨.sSent, by simp [step]⟩
+
+/-! ### a server started while the integration is running -/
+
+/-- starting the server at any moment at which the integrator is not inside an iteration that
+runs without the mutex — before `integrate()`, in the prologue, inside `reb_check_exit` (in
+particular while PAUSED), between unlock and the next `reb_check_exit`, at rebound.c:842 before
+the read, in the epilogue — keeps `racy = false` for ever, so every theorem of this file
+applies to the rest of the execution -/
+theorem c19_start_outside_iteration_is_safe (pre post : List Ev) (s0 s : State)
+    (h0 : Exec pre s0) (hq0 : s0.racy = false)
+    (hout : (critI s0.ipc = true ∧ s0.ilock = false) → False)
+    (hr : run s0 (.xStart :: post) = some s) : s.racy = false := by
+  simp only [run] at hr
+  split at hr
+  · simp at hr
+  · next s1 h1 =>
+    have hu : s1.srvUp = true ∧ s1.racy = false := by
+      obtain ⟨ipc, spc, owner, nc, sim, snap, served, up, il, rc, ub⟩ := s0
+      simp only [step] at h1
+      split at h1
+      · simp only [Option.some.injEq] at h1; subst h1
+        refine ⟨rfl, ?_⟩
+        simp only at hq0 hout ⊢
+        cases ipc <;> cases il <;> simp_all [critI]
+      · simp at h1
+    rw [run_racy_up hr hu.1]; exact hu.2
+
+/-- a step begun before the server existed, the server started during it, a request served at once -/
+def witnessF19 : List Ev :=
+  [.iEnter, .iChkBegin, .iChkEnd true, .iSeeSrv false, .iStepBegin, .xStart, .sReq, .sSetNC, .sLock, .sSerBegin]
+
+/-- … and the integrator then reaches rebound.c:868, reads `r->server_data != NULL` and unlocks the
+mutex the server holds -/
+def witnessF19ub : List Ev := witnessF19 ++ [.iStepEnd, .iUnlock]
+
+/-- WHAT IS TRUE OF THE UNCHANGED CODE (finding F19): because `r->server_data` is read separately
+at rebound.c:842 and 868, a server started while a step is in progress can serialise the
+simulation mid-step (`mid 0`), and the integrator then calls `pthread_mutex_unlock` on the mutex
+the server owns (undefined behaviour; with glibc the server's critical section loses its lock) -/
+theorem c19_start_mid_step_breaks_exclusion :
+    (∃ s, Exec witnessF19 s ∧ s.racy = true ∧ s.spc = .serialising ∧ s.sim = mid 0 1 ∧ s.owner = some .S) ∧
+    (∃ s, Exec witnessF19ub s ∧ s.ub = true ∧ s.spc = .serialising ∧ s.owner = none) := by
+  have h1 : (run init witnessF19).map (fun s => (s.racy, s.spc, s.sim, s.owner))
+      = some (true, .serialising, mid 0 1, some .S) := by decide
+  have h2 : (run init witnessF19ub).map (fun s => (s.ub, s.spc, s.owner))
+      = some (true, .serialising, none) := by decide
+  constructor
+  · cases hr : run init witnessF19 with
+    | none => simp [hr] at h1
+    | some s =>
+      simp only [hr, Option.map_some, Option.some.injEq, Prod.mk.injEq] at h1
+      exact ⟨s, hr, h1.1, h1.2.1, h1.2.2.1, h1.2.2.2⟩
+  · cases hr : run init witnessF19ub with
+    | none => simp [hr] at h2
+    | some s =>
+      simp only [hr, Option.map_some, Option.some.injEq, Prod.mk.injEq] at h2
+      exact ⟨s, hr, h2.1, h2.2.1, h2.2.2⟩
 
 /-! ### what an accepted trace means -/
 
@@ -257,18 +361,18 @@ theorem c19_tables_populated :
 
 /-- an execution that reaches `serialise` at a step boundary after one completed step, and
 completes the request -/
-example : (run init [.iEnter, .iChkBegin, .iChkEnd true, .iSeeNC0, .iLock, .iStepBegin, .sReq, .sSetNC,
+example : (run init [.xStart, .iEnter, .iChkBegin, .iChkEnd true, .iSeeSrv true, .iSeeNC0, .iLock, .iStepBegin, .sReq, .sSetNC,
     .iStepEnd, .iUnlock, .sLock, .iChkBegin, .sSerBegin]).map (fun s => (s.spc, s.sim, s.snap))
     = some (.serialising, boundary 1 1, some (boundary 1 1)) := by decide
 
 /-- the integrator spins on `need_copy` and blocks on the mutex while the server serialises -/
-example : (run init [.iEnter, .iChkBegin, .iChkEnd true, .sReq, .sSetNC, .iSpin, .iSpin, .sLock,
+example : (run init [.xStart, .iEnter, .iChkBegin, .iChkEnd true, .iSeeSrv true, .sReq, .sSetNC, .iSpin, .iSpin, .sLock,
     .sSerBegin, .iSpin, .sSerEnd, .sClrNC, .iSeeNC0]).map (fun s => (s.ipc, s.spc, step s .iLock))
     = some (.wantLock, .ncClr, none) := by decide
 
 /-- a complete integrate() call of two steps with a request served in between, accepted from
 what the shim can observe (silent events guessed by the acceptor) -/
-example : (accept ([.iEnter, .iChkBegin, .iChkEnd true, .iLock, .iStepBegin, .iStepEnd, .iUnlock,
+example : (accept ([.xStart, .iEnter, .iChkBegin, .iChkEnd true, .iLock, .iStepBegin, .iStepEnd, .iUnlock,
     .iChkBegin, .sLock, .sSerBegin, .iChkSync, .iChkEnd true, .iSpin, .sSerEnd, .sUnlock, .iLock,
     .iStepBegin, .iStepEnd, .iUnlock, .iChkBegin, .iChkEnd false, .iEpiSync, .iLeave].map
     (fun e => ⟨e, none⟩))).toOption.map
@@ -276,14 +380,22 @@ example : (accept ([.iEnter, .iChkBegin, .iChkEnd true, .iLock, .iStepBegin, .iS
     = some true := by decide +kernel
 
 /-- and a trace in which the server serialises without the lock is rejected at that event -/
-example : (match accept ([.iEnter, .iChkBegin, .iChkEnd true, .iLock, .iStepBegin, .sSerBegin].map
-    (fun e => ⟨e, none⟩)) with | .error i => i == 5 | .ok _ => false) = true := by decide +kernel
+example : (match accept ([.xStart, .iEnter, .iChkBegin, .iChkEnd true, .iLock, .iStepBegin, .sSerBegin].map
+    (fun e => ⟨e, none⟩)) with | .error i => i == 6 | .ok _ => false) = true := by decide +kernel
+
+/-- a server started while the simulation is paused inside `reb_check_exit`: the first iteration
+after the resume must take the mutex (a loop that had cached `r->server_data == NULL` is rejected) -/
+example : ((accept ([.iEnter, .iChkBegin, .xStart, .sLock, .sSerBegin, .sSerEnd, .sUnlock, .iChkEnd true,
+      .iLock, .iStepBegin, .iStepEnd, .iUnlock].map (fun e => ⟨e, none⟩))).toOption.map
+      (fun l => !l.isEmpty && l.all (fun s => !s.racy && s.served == 1 && s.sim.steps == 1)),
+    match accept ([.iEnter, .iChkBegin, .xStart, .iChkEnd true, .iStepBegin].map (fun e => ⟨e, none⟩)) with
+      | .error i => i == 4 | .ok _ => false) = (some true, true) := by decide +kernel
 
 /-- two independent simulations: an interleaving and the sequential schedule agree -/
 example : prun concMachine (fun _ => init)
-      [(0, .iEnter), (1, .iEnter), (1, .iChkBegin), (0, .iChkBegin), (0, .iChkEnd true), (1, .sReq)]
+      [(0, .iEnter), (1, .iEnter), (1, .iChkBegin), (0, .iChkBegin), (0, .iChkEnd true), (1, .xStart)]
     = prun concMachine (fun _ => init)
-      (seqSched [(0, .iEnter), (1, .iEnter), (1, .iChkBegin), (0, .iChkBegin), (0, .iChkEnd true), (1, .sReq)] 2) :=
+      (seqSched [(0, .iEnter), (1, .iEnter), (1, .iChkBegin), (0, .iChkBegin), (0, .iChkEnd true), (1, .xStart)] 2) :=
   c19_interleaving_eq_sequential concMachine 2 _ _ _ (by decide) rfl |>.symm
 
 end RV.Conc
